@@ -748,7 +748,7 @@ def efun_table(bdir, tvals):
         dv = {"DEFAULT_NONE": -3, "DEFAULT_THIS_OBJECT": -2}.get(deflt)
         if dv is None:
             dv = int(deflt)
-        rows.append({"name": name, "op": ops[tokname], "min": int(f[4]), "max": int(f[5]),
+        rows.append({"name": name, "op": ops[tokname], "min": int(f[4]), "max": int(f[5]), "ret": f[6],
                      "types": [mask(f[7]), mask(f[8]), mask(f[9]), mask(f[10])], "default": dv, "alias": alias})
     return rows, ops
 
